@@ -852,7 +852,7 @@ package websocket
 //@ assert at return#1[C16.dialerr]: conn == nil && err != nil
 //@ assert at return#2[C16.cleanup]: conn == nil && err != nil && fc.g_closed
 //@ assert at return#3[C16.cleanup]: conn == nil && err != nil && fc.g_closed
-//@ assert at return#4[C18.refused]: conn == nil && err != nil && fc.g_closed && resp.StatusCode != 200
+//@ assert at return#4[C16+C18.refused]: conn == nil && err != nil && fc.g_closed && resp.StatusCode != 200
 //@ assert at return#5[C18.ok]: conn == fc && err == nil && !fc.g_closed && resp.StatusCode == 200
 
 // ---------------------------------------------------------------------------
@@ -1068,6 +1068,8 @@ package websocket
 //@ assert at return#$[C14.accept]: err == nil && conn != nil && rerr == nil && resp == rresp && resp.StatusCode == 101 && okUpg && okConn && streq(acc, ak)
 //@ bind exts after call:parseExtensions#1
 //@ loop 4 invariant forall(k, 0, rangeindex + 1, !streq(exts[k][""], "permessage-deflate")) && conn.newCompressionWriter == nil
+//@ assert at return#$[C15.bothparams]: imp(conn.newCompressionWriter != nil, 0 <= rangeindex + 1 && rangeindex + 1 < len(exts) && streq(exts[rangeindex + 1][""], "permessage-deflate") && \
+//@     haskey(exts[rangeindex + 1], "server_no_context_takeover") && haskey(exts[rangeindex + 1], "client_no_context_takeover"))
 //@ assert at return#$[C15.negotiated]: imp(conn.newCompressionWriter == nil, forall(k, 0, len(exts), !streq(exts[k][""], "permessage-deflate")))
 //@ assert at return#$[C15.client]: iff(conn.newCompressionWriter != nil, conn.newDecompressionReader != nil) && !conn.isServer
 //@ assert at return#9[C16.cleanup]: nc.g_closed && conn == nil
